@@ -1,4 +1,5 @@
 import OmbottModel.Py
+import OmbottModel.Py.IntLim
 import OmbottModel.Model.Router
 import OmbottModel.Model.RouterEdit
 import OmbottModel.Model.RouterListing
@@ -305,7 +306,7 @@ inductive CodeArg
 def CodeArg.toInt : CodeArg → Except ErrName Int
   | .int n => .ok n
   | .str s =>
-    match pyInt s with
+    match pyIntLim s with
     | some n => .ok n
     | none => .error "ValueError"
 
